@@ -197,6 +197,7 @@ fn run_step_with(boc: &Arc<BocData>, st: &Step, max_write: usize, hash_seed: u64
         app_files: 1,
         app_console: false,
         app_legacy_date: false,
+        app_date_fmt: 0,
         net_faults: vec![],
         server_today: if ahead != 0 { Some(pd(&st.today)) } else { None },
         fs_faults,
@@ -686,6 +687,7 @@ impl Engine for C14 {
                     app_files: 1,
                     app_console: false,
                     app_legacy_date: false,
+                    app_date_fmt: 0,
                     net_faults: vec![],
                     server_today: None,
                     fs_faults: FsFaultSpec::default(),
